@@ -19,7 +19,7 @@ func Preamble(m Mode) string {
 	fmt.Fprintf(&b, "(declare-datatypes ((Ptr 0)) (((mkptr (p.obj Int) (p.off %s)))))\n", ix)
 	fmt.Fprintf(&b, "(declare-datatypes ((Slice 0)) (((mksl (sl.ptr Ptr) (sl.len %s) (sl.cap %s)))))\n", ix, ix)
 	b.WriteString("(declare-datatypes ((Iface 0)) (((mkif (if.dyn Int) (if.val Ptr)))))\n")
-	b.WriteString("(declare-sort Str 0)\n(define-sort Func () Int)\n")
+	b.WriteString("(declare-sort Str 0)\n(define-sort Func () Int)\n(define-sort GInt () Int)\n")
 	fmt.Fprintf(&b, "(declare-fun slen (Str) %s)\n(declare-fun sat (Str %s) %s)\n(declare-fun sconcat (Str Str) Str)\n", ix, ix, ix)
 	b.WriteString("(define-fun tdiv ((a Int) (b Int)) Int (ite (>= a 0) (div a b) (- (div (- a) b))))\n")
 	b.WriteString("(define-fun tmod ((a Int) (b Int)) Int (- a (* b (tdiv a b))))\n")
@@ -170,7 +170,7 @@ func decide(o *Obl, file string, timeout time.Duration, stats *SolveStats) {
 	o.Seconds += so.secs
 	if so.status == "unsat" || so.status == "sat" || o.Canary {
 		o.Result, o.Solver = so.status, so.solver
-		if so.status == "sat" {
+		if so.status == "sat" || so.status == "error" {
 			o.Model = so.out
 		}
 		if so.status == "unsat" {
@@ -205,7 +205,7 @@ func decide(o *Obl, file string, timeout time.Duration, stats *SolveStats) {
 		}
 	}
 	o.Result, o.Solver = best.status, best.solver
-	if best.status == "sat" {
+	if best.status == "sat" || best.status == "error" {
 		o.Model = best.out
 	}
 }
